@@ -125,12 +125,10 @@ theorem consumeNumber_err {rest : Bytes} {p0 : Nat} {np : Bool} {e : LexErr}
   split at h
   · cases h
   · rename_i i isInt hnl
-    have hi0 : (if (rest[0]? == some 48 && (rest[1]? == some 120 || rest[1]? == some 88)) = true then 2 else 0) ≤ rest.length := by
+    have hi0 : (if isHexPrefix rest = true then 2 else 0) ≤ rest.length := by
       split
       · rename_i hh
-        simp only [Bool.and_eq_true, Bool.or_eq_true, beq_iff_eq] at hh
-        have : 1 < rest.length := by
-          rcases hh.2 with h | h <;> exact getElem?_some_lt h
+        have := isHexPrefix_len hh
         omega
       · omega
     have hb := numberLoop_bound hnl hi0
